@@ -788,7 +788,9 @@ class App:
                         continue
             ctx.require(abs(a1 - d1) <= tol1, 'C10', 'stress_vs_fd',
                         lambda: 'directional stress from autodiff %.12g vs finite difference of the energy %.12g (diff %.3g, tol %.3g)' % (a1, d1, a1 - d1, tol1), sig=sig)
-            sig['tangent_error_below_1pct_of_modulus'] = bool(abs(a2 - d2) <= 1e-2 * scaleE)
+            # the error of F-C10 sits in the term stress : (second derivative of the strain measure), so it scales
+            # with the stress; an error that is large against the stress is something else
+            sig['tangent_error_below_stress_norm'] = bool(abs(a2 - d2) <= 1.0 * float(np.linalg.norm(P[i])))
             ctx.require(abs(a2 - d2) <= tol2, 'C10', 'tangent_vs_fd',
                         lambda: 'directional tangent from autodiff %.12g vs second difference of the energy %.12g (diff %.3g, tol %.3g)' % (a2, d2, a2 - d2, tol2), sig=sig)
 
